@@ -27,6 +27,9 @@ VARIANTS = {
     "asan": ["-O1", "-g", "-fsanitize=address,undefined", "-fno-sanitize=nonnull-attribute",
              "-fno-sanitize-recover=all", "-fno-omit-frame-pointer"],
     "plain": ["-O1", "-g", "-fno-omit-frame-pointer"],
+    # no optimisation, no instrumentation: every load in the source is a load in the binary (used to confirm
+    # null-pointer reports of the recovering UBSan build of the batch tools)
+    "plain0": ["-O0", "-g"],
     "reach": ["-O0", "-g", "-finstrument-functions", "-fno-omit-frame-pointer"],
     "tsan": ["-O1", "-g", "-fsanitize=thread", "-fno-omit-frame-pointer"],
     "cov": ["-O0", "-g", "--coverage"],
